@@ -458,33 +458,49 @@ class G:
         return lines
 
     def affine_general_case(self, cid, kind):
-        """general-form expressions (several variables, negative coefficients) on shapes where every variable is bounded"""
+        """general-form and one-variable expressions, negative denominators, on shapes where every variable is bounded
+        or exactly one variable is unbounded (on one or both sides); every relation symbol; image and preimage"""
         r = self.r
         n = 3
         cs = []
+        unb = r.randrange(n) if r.random() < 0.45 else -1      # the unbounded variable, if any
+        unb_side = r.choice(["both", "upper", "lower"])
         for i in range(n):
             lo = r.randint(-3, 2); hi = lo + r.randint(0, 4)
-            cs += [self.grid_con(n, [(i, 1)], -lo), self.grid_con(n, [(i, -1)], hi)]
+            if not (i == unb and unb_side in ("both", "lower")): cs.append(self.grid_con(n, [(i, 1)], -lo))
+            if not (i == unb and unb_side in ("both", "upper")): cs.append(self.grid_con(n, [(i, -1)], hi))
         for _ in range(r.randint(0, 2)):
             c = self.con(kind, n)
             if not c.startswith(">"): cs.append(c)
-        def gexpr():
-            while True:
-                co = [r.choice([-3, -2, -1, -1, 0, 1, 2]) for _ in range(n)]
-                if sum(1 for x in co if x) >= 2 and any(x < 0 for x in co): break
-            return "%d %d %s" % (n, r.randint(-3, 3), " ".join(map(str, co)))
+        den = lambda: r.choice([1, 1, 2, 3, -1, -1, -2, -3])
+        def gexpr(v, d):
+            """expression for variable v and denominator d"""
+            u = r.random()
+            co = [0] * n
+            if u < 0.3:
+                # one variable w != v (or v itself) with coefficient +-d, +-1 or other; constant of either sign
+                w = r.randrange(n) if r.random() < 0.2 else r.choice([k for k in range(n) if k != v])
+                co[w] = r.choice([d, -d, d, -d, 1, -1, 2 * d])
+            else:
+                while True:
+                    co = [r.choice([-3, -2, -1, -1, 0, 1, 2]) for _ in range(n)]
+                    if sum(1 for x in co if x) >= 2: break
+                if unb >= 0 and r.random() < 0.7:
+                    co[unb] = r.choice([d, -d, d, -d, 1, -1, 2])          # the unbounded variable with coefficient +-d / other
+            return "%d %d %s" % (n, r.randint(-4, 4) * r.choice([1, 1, 2]), " ".join(map(str, co)))
+        rels = ["<=", ">=", "==", "<=", ">="] + (["<", ">"] if kind in ("box_q", "box_d") or r.random() < 0.05 else [])
         lines = ["case %s" % cid, "new 0 %s %d cons %d %s" % (kind, n, len(cs), " ".join(cs))]
-        for k in range(1, 6): lines.append("copy %d 0" % k)
-        den = lambda: r.choice([1, 1, 2, -1, -2])
-        lines += ["op 1 affine_image %d %d %s" % (r.randrange(n), den(), gexpr()),
-                  "op 2 affine_image %d %d %s" % (r.randrange(n), den(), gexpr()),
-                  "op 3 bounded_affine_image %d %d %s %s" % (r.randrange(n), den(), gexpr(), gexpr()),
-                  "op 4 generalized_affine_image %d %s %d %s" % (r.randrange(n), r.choice(["<=", ">=", "=="]), den(), gexpr()),
-                  "op 5 %s %d %s %d %s" % (r.choice(["generalized_affine_preimage", "generalized_affine_image"]), r.randrange(n), r.choice(["<=", ">="]), den(), gexpr()),
-                  "op 0 %s %d %d %s" % (r.choice(["affine_preimage", "bounded_affine_preimage"]), r.randrange(n), den(), gexpr() if r.random() < 0.5 else gexpr() + " " + gexpr()),
+        for k in range(1, 8): lines.append("copy %d 0" % k)
+        def one(k, op):
+            v = r.randrange(n); d = den()
+            if op in ("affine_image", "affine_preimage"): return "op %d %s %d %d %s" % (k, op, v, d, gexpr(v, d))
+            if op.startswith("generalized"): return "op %d %s %d %s %d %s" % (k, op, v, r.choice(rels), d, gexpr(v, d))
+            return "op %d %s %d %d %s %s" % (k, op, v, d, gexpr(v, d), gexpr(v, d))
+        lines += [one(1, "affine_image"), one(2, "generalized_affine_image"), one(3, "generalized_affine_image"),
+                  one(4, "bounded_affine_image"), one(5, "bounded_affine_image"),
+                  one(6, "generalized_affine_preimage"), one(7, r.choice(["bounded_affine_preimage", "affine_preimage", "generalized_affine_preimage"])),
+                  one(0, r.choice(["generalized_affine_image", "generalized_affine_preimage", "bounded_affine_image"])),
                   "stall", "end"]
-        if "bounded_affine_preimage" in lines[-3] and lines[-3].count(" %d " % n) < 2:
-            lines[-3] = lines[-3] + " " + gexpr()
         return lines
 
     def lazy_dim_case(self, cid, kind):
@@ -562,6 +578,92 @@ class G:
         lines += ["op 0 difference_assign 1", "qry 0 contains 2", "qry 2 contains 0", "op 3 difference_assign 2", "stall", "end"]
         return lines
 
+    def redundant_cons(self, kind, n):
+        """constraints with implied (redundant) members so that a reduction has something to mark"""
+        r = self.r
+        f = fam(kind)
+        cs = []
+        for i in range(n):
+            lo = r.randint(-1, 1); hi = lo + r.randint(0, 3)
+            if r.random() < 0.85: cs.append(self.grid_con(n, [(i, 1)], -lo))
+            if r.random() < 0.85: cs.append(self.grid_con(n, [(i, -1)], hi))
+        if f != "box" and n > 1:
+            for _ in range(r.randint(1, 3)):
+                i, j = r.sample(range(n), 2)
+                si = 1; sj = -1
+                if f == "oct": si, sj = r.choice([1, -1]), r.choice([1, -1])
+                cs.append(self.grid_con(n, [(i, -si), (j, -sj)], r.randint(0, 4)))     # si*x_i + sj*x_j <= c
+        return cs or [self.grid_con(n, [(0, 1)], 0)]
+
+    def lazy_prefix(self, oid, kind, n, state):
+        """leave object oid in a given lazy state"""
+        r = self.r
+        if state == "fresh": return []
+        if state == "closed": return ["op %d closure" % oid]
+        if state == "reduced": return ["op %d %s" % (oid, r.choice(["reduction", "obs_minimized_constraints"]))]
+        # stale redundancy data: reduced, then modified (flags reset), possibly closed again
+        ls = ["op %d reduction" % oid, "op %d %s %s" % (oid, r.choice(["add_constraint", "refine_with_constraint"]), self.redundant_cons(kind, n)[0])]
+        if state == "stale-closed": ls.append("op %d closure" % oid)
+        return ls
+
+    def swap_case(self, cid, kind):
+        """swap / assignment / copy between shapes in every pair of lazy states, then observers, comparisons and
+        upper_bound_assign_if_exact against twins rebuilt from constraints()"""
+        r = self.r
+        n = r.choice([2, 2, 3])
+        states = ["fresh", "closed", "reduced", "stale", "stale-closed"]
+        sx, sy = r.choice(states), r.choice(states)
+        x = self.redundant_cons(kind, n); y = self.redundant_cons(kind, n)
+        lines = ["case %s" % cid,
+                 "new 0 %s %d cons %d %s" % (kind, n, len(x), " ".join(x)),
+                 "new 1 %s %d cons %d %s" % (kind, n, len(y), " ".join(y))]
+        lines += self.lazy_prefix(0, kind, n, sx) + self.lazy_prefix(1, kind, n, sy)
+        act = r.choice(["swap", "swap", "swap_std", "assign", "copy"])
+        if act == "copy": lines.append("copy 1 0")
+        else: lines.append("op 0 %s 1" % act)
+        for o in (0, 1):
+            lines += ["op %d obs_minimized_constraints" % o, "new %d %s %d twin %d" % (2 + o, kind, n, o),
+                      "qry %d equals %d" % (o, 2 + o), "qry %d contains %d" % (o, 2 + o), "qry %d contains %d" % (2 + o, o)]
+        lines += ["qry 0 equals 1", "qry 0 contains 1", "copy 4 0", "copy 5 2",
+                  "op 4 upper_bound_assign_if_exact 1", "op 5 upper_bound_assign_if_exact 3",
+                  "op 0 %s" % r.choice(["reduction", "closure", "obs_constraints"]), "op 1 difference_assign 0", "stall", "end"]
+        return lines
+
+    def ubie_case(self, cid, kind):
+        """upper_bound_assign_if_exact (and the integer variant on integer carriers) on pairs of small shapes whose end
+        points come from a tiny grid: sharing / adjacent / crossing faces, both argument orders"""
+        r = self.r
+        f, c = fam(kind), car(kind)
+        n = r.choice([2, 2, 2, 3])
+        def shape():
+            cs = []
+            for i in range(n):
+                lo = r.randint(0, 2); hi = lo + r.randint(0, 3)
+                if r.random() < 0.9: cs.append(self.grid_con(n, [(i, 1)], -lo))
+                if r.random() < 0.9: cs.append(self.grid_con(n, [(i, -1)], hi))
+            if f != "box":
+                for _ in range(r.randint(0, 3)):
+                    i, j = r.sample(range(n), 2)
+                    si, sj = (1, -1) if f == "bds" else (r.choice([1, -1]), r.choice([1, -1]))
+                    cs.append(self.grid_con(n, [(i, -si), (j, -sj)], r.randint(-1, 5)))
+            return cs or [self.grid_con(n, [(0, 1)], 0)]
+        x = shape()
+        if r.random() < 0.5:
+            # y = x with one bound moved / one constraint replaced: adjacent or overlapping pieces
+            y = list(x); k = r.randrange(len(y)); t = y[k].split(" ")
+            t[1] = str(int(t[1]) + r.choice([-2, -1, 1, 2])); y[k] = " ".join(t)
+            if r.random() < 0.5: y.append(shape()[0])
+        else:
+            y = shape()
+        op = "integer_upper_bound_assign_if_exact" if (c in ("z", "i8") and f != "box" and r.random() < 0.5) else "upper_bound_assign_if_exact"
+        lines = ["case %s" % cid,
+                 "new 0 %s %d cons %d %s" % (kind, n, len(x), " ".join(x)),
+                 "new 1 %s %d cons %d %s" % (kind, n, len(y), " ".join(y)),
+                 "copy 2 0", "copy 3 1"]
+        if r.random() < 0.3: lines.append("op %d %s" % (r.choice([0, 1]), r.choice(["closure", "reduction"])))
+        lines += ["op 0 %s 1" % op, "op 3 %s 2" % op, "stall", "end"]
+        return lines
+
     def twin_case(self, cid, kind):
         """equal sets with different matrices, and sets one notch apart"""
         r = self.r
@@ -599,7 +701,7 @@ def make_targeted(seed, count, kinds, start=0, which=None):
     transformers, lazy state after dimension changes, difference with straddled equalities)"""
     g = G(seed, 3)
     out = []
-    names = which or ["open_box", "eq_refine", "affine_general", "lazy_dim", "diff_eq"]
+    names = which or ["open_box", "eq_refine", "affine_general", "lazy_dim", "diff_eq", "swap", "ubie", "affine_general"]
     i = 0; made = 0
     while made < count:
         kind = kinds[i % len(kinds)]; nm = names[(i // len(kinds)) % len(names)]; i += 1
